@@ -124,6 +124,56 @@ func LoadFindings(path string) ([]Finding, error) {
 	return out, sc.Err()
 }
 
+// Summary of a variant / witness run (nothing is written).
+type Summary struct {
+	Violations []Obligation
+	Known      []Obligation
+	Rules      []string // rules with an unlisted violation
+	Keys       []string // keys of unlisted violations
+}
+
+// Summarise classifies the obligations against the known findings without side effects.
+func (r *Result) Summarise(findings []Finding) Summary {
+	var s Summary
+	known := map[string]bool{}
+	for _, f := range findings {
+		if f.Property == r.Property {
+			known[f.Key] = true
+		}
+	}
+	count := map[string]int{}
+	for _, o := range r.Obligations {
+		if o.Verdict != Excluded {
+			count[o.Rule]++
+		}
+	}
+	rules := map[string]bool{}
+	for rule, n := range r.MinMatches {
+		if count[rule] < n {
+			s.Violations = append(s.Violations, Obligation{Rule: rule, Key: rule + "|<match-count>", Verdict: Undecided})
+			rules[rule] = true
+			s.Keys = append(s.Keys, rule+"|<match-count>")
+		}
+	}
+	for _, o := range r.Obligations {
+		if o.Verdict == Violation || o.Verdict == Undecided {
+			if known[o.Key] && o.Verdict == Violation {
+				s.Known = append(s.Known, o)
+			} else {
+				s.Violations = append(s.Violations, o)
+				rules[o.Rule] = true
+				s.Keys = append(s.Keys, o.Key)
+			}
+		}
+	}
+	for k := range rules {
+		s.Rules = append(s.Rules, k)
+	}
+	sort.Strings(s.Rules)
+	sort.Strings(s.Keys)
+	return s
+}
+
 // Outcome of Finish.
 type Outcome struct {
 	Violations []Obligation // not covered by a known finding (incl. undecided, count failures)
